@@ -171,6 +171,57 @@ def cgem_cluster_layouts(chk: core.Check, n_cases: int):
                 return
 
 
+def cross_release_files(chk: core.Check, thorough: bool):
+    """the same collection branch read from files written by different software releases (different class versions of the element) one
+    after the other in ONE process, singly and through uproot.concatenate: each must equal that file's read in a fresh process"""
+    import awkward as ak
+    import uproot
+    import pybes3  # noqa: F401
+    import subprocess
+    import json as _json
+    pairs = [("test_full_mc_evt_1.rtraw", "test_cgem.rtraw", ["TMcEvent/m_mdcMcHitCol", "TDigiEvent/m_mdcDigiCol"]),
+             ("test_full_mc_evt_1.dst", "test_cgem.dst", ["TDstEvent/m_mdcTrackCol"]),
+             ("test_full_mc_evt_1.rec", "test_cgem.rec", ["TRecEvent/m_recMdcTrackCol"])]
+    code = "import sys, json, uproot, pybes3, awkward as ak\nprint(json.dumps(ak.to_list(uproot.open(sys.argv[1])['Event'][sys.argv[2]].array()[:3])))"
+    for fa, fb, branches in (pairs if thorough else pairs[:2]):
+        pa, pb = core.REPO / "tests" / "data" / fa, core.REPO / "tests" / "data" / fb
+        if not (pa.exists() and pb.exists()):
+            continue
+        for brn in branches:
+            ref = {}
+            for p in (pa, pb):
+                r = subprocess.run([core.PY, "-c", code, str(p), brn], capture_output=True, text=True, timeout=600)
+                if r.returncode != 0:
+                    raise core.Infra("reference read failed: " + r.stderr[-800:])
+                ref[p.name] = _json.loads(r.stdout.strip().splitlines()[-1])
+            for order in ((pa, pb), (pb, pa, pb)):
+                hist = []
+                for p in order:
+                    hist.append(p.name)
+                    chk.count(1, key=f"cross-release-{brn}-{'>'.join(hist)}")
+                    try:
+                        got = ak.to_list(uproot.open(p)["Event"][brn].array()[:3])
+                        ok = same_nested(_json.loads(_json.dumps(got)), ref[p.name])
+                    except Exception as ex:
+                        got, ok = f"{type(ex).__name__}: {str(ex)[:300]}", False
+                    if not ok:
+                        chk.failing_input("single-branch reads of the same collection from files of different releases, one process", {"branch": brn, "files_read_in_order": hist},
+                                          got if isinstance(got, str) else "values differ from the fresh-process read", "the read of that file alone (fresh process)", "reading several files returns the individual reads; a subset of branches returns the same columns")
+                        return
+            try:
+                cat = uproot.concatenate([{str(pa): "Event"}, {str(pb): "Event"}], filter_name=brn.split("/")[-1])
+                col = cat[cat.fields[0]]
+                n_a = len(uproot.open(pa)["Event"][brn].array())
+                ok = same_nested(_json.loads(_json.dumps(ak.to_list(col[:3]))), ref[pa.name]) and same_nested(_json.loads(_json.dumps(ak.to_list(col[n_a:n_a + 3]))), ref[pb.name])
+                got = "values differ"
+            except Exception as ex:
+                ok, got = False, f"{type(ex).__name__}: {str(ex)[:300]}"
+            chk.count(1, key=f"cross-release-concatenate-{brn}")
+            if not ok:
+                chk.failing_input("uproot.concatenate of files of different releases (one collection branch)", {"branch": brn, "files": [pa.name, pb.name]}, got, "concatenation of the individual reads", "several files at once return the concatenation of the individual reads")
+                return
+
+
 def collection_branches(tree):
     import pybes3.besio.root_io as rio
     out = []
@@ -310,6 +361,8 @@ def main(chk: core.Check) -> int:
         digi_post(chk)
         cgem_cluster_layouts(chk, 400 if thorough else 60)
         real_bytes(chk, thorough)
+        if not chk.failing or all(chk.match_known(f) for f in chk.failing):
+            cross_release_files(chk, thorough)
     except Exception as ex:
         import traceback
         chk.obligation_broken("correspondence", "fixture / API run", f"{type(ex).__name__}: {ex}\n{traceback.format_exc()[-1800:]}")
